@@ -38,3 +38,16 @@ package lossy
 //@       dec.fstrengths[s][i].HevThresh == specHevThreshold(lvl(dec, s, i))
 //@   ensures dec.filterType > 0 ==> forall s int in 0..4, i int in 0..2 :: lvl(dec, s, i) == 0 ==> dec.fstrengths[s][i].FLimit == 0
 //@   ensures dec.filterType > 0 ==> forall s int in 0..4, i int in 0..2 :: (dec.fstrengths[s][i].FInner <==> i != 0)
+//
+// ---- C06: when the segment map is not transmitted every macroblock is in segment 0 ----
+//
+// The decoder assigns segment 0 to every macroblock of a frame without a
+// segment map; the encoder must then reconstruct with segment 0 as well,
+// otherwise its reference picture drifts from the decoded one.
+//@ func (enc *VP8Encoder) setSegmentProbas
+//@   property C06 C05
+//@   requires enc != nil
+//@   requires forall k int :: 0 <= k && k < len(enc.mbInfo) ==> enc.mbInfo[k].Segment < 4
+//@   modifies enc, enc.mbInfo[:]
+//@   loop 1: invariant forall k int :: 0 <= k && k <= rangeindex ==> enc.mbInfo[k].Segment == 0
+//@   ensures old(enc.segmentHdr.UpdateMap) && !enc.segmentHdr.UpdateMap ==> forall k int :: 0 <= k && k < len(enc.mbInfo) ==> enc.mbInfo[k].Segment == 0
